@@ -415,6 +415,9 @@ func computeClosures(p *Prog) *Closures {
 		for _, b := range fn.Blocks {
 			for _, in := range b.Instrs {
 				s = s.Union(staticEffects(p, in))
+				if _, isGo := in.(*ssa.Go); isGo {
+					continue // what a spawned goroutine does is not an effect of the spawning call
+				}
 				if cc, ok := in.(ssa.CallInstruction); ok {
 					if f := cc.Common().StaticCallee(); f != nil && f.Blocks != nil && inSod(p, f) {
 						callees[fn] = append(callees[fn], f)
